@@ -181,6 +181,11 @@ def theorem_modules(theorems, srcs=None):
         short = t.split(".", 1)[1] if t.startswith("Mistune.") else t
         rx = re.compile(_DECL % re.escape(short), re.M)
         hit = [m for m, txt in srcs.items() if m.startswith("MistuneProofs") and rx.search(txt)] or [m for m, txt in srcs.items() if rx.search(txt)]
+        if not hit and "." in short:
+            # declared inside nested namespaces (`Mistune.Model.Blk.parseMethod_progress` is `theorem parseMethod_progress` in `namespace Blk`)
+            parts = short.split(".")
+            rx2 = re.compile(_DECL % re.escape(parts[-1]), re.M)
+            hit = [m for m, txt in srcs.items() if m.startswith("MistuneProofs") and rx2.search(txt) and all(re.search(r"^namespace\s+(?:\S+\.)?%s\b" % re.escape(p), txt, re.M) for p in parts[:-1])]
         res[t] = hit[0] if hit else None
     return res
 
